@@ -111,6 +111,21 @@ Inductive call :=
 | RecEnd (t : Z)
 | IncrOld (n : name) (v : N).              (* the pre-fix increment_counter, for the regression *)
 
+Arguments Counter c%N.
+Arguments Other tag%Z.
+Arguments SIncr n%Z v%N.
+Arguments SSet n%Z v%N.
+Arguments SReg n%Z m.
+Arguments SStart t%Z.
+Arguments SEnd t%Z.
+Arguments SIncrOldRead n%Z v%N.
+Arguments Incr n%Z v%N.
+Arguments SetC n%Z v%N.
+Arguments Reg n%Z m.
+Arguments RecStart t%Z.
+Arguments RecEnd t%Z.
+Arguments IncrOld n%Z v%N.
+
 Definition sections_of (c : call) : list section :=
   match c with
   | Incr n v => [SIncr n v]
